@@ -196,6 +196,18 @@ func runNative(bin, harness string, files []string, timeout time.Duration) (map[
 	return res, nil
 }
 
+// replayDraws drops environment draws (symbolic clock readings): the native
+// run reads the real clock.
+func replayDraws(ds []sym.Draw) []sym.Draw {
+	var out []sym.Draw
+	for _, d := range ds {
+		if d.Kind != "env" {
+			out = append(out, d)
+		}
+	}
+	return out
+}
+
 func violationExpect(v *sym.Violation) string {
 	switch v.Kind {
 	case "assert":
@@ -389,7 +401,7 @@ func cmdCheck(args []string) int {
 			var files []string
 			for i, tr := range cr.traces {
 				f := filepath.Join(workDir, fmt.Sprintf("vec-%s-%d.json", cr.h.Func, i))
-				rf := replayFile{Property: id, Harness: cr.h.Func, Tier: tierNum, Params: cr.params, Draws: tr.Draws, Expect: tr.Outcome}
+				rf := replayFile{Property: id, Harness: cr.h.Func, Tier: tierNum, Params: cr.params, Draws: replayDraws(tr.Draws), Expect: tr.Outcome}
 				b, _ := json.Marshal(rf)
 				os.WriteFile(f, b, 0o644)
 				files = append(files, f)
@@ -442,7 +454,7 @@ func cmdCheck(args []string) int {
 			}
 			hfn := v.Harness[strings.IndexByte(v.Harness, '.')+1:]
 			path := filepath.Join("/verif/replays", id, fmt.Sprintf("cex-%s-%d.json", hfn, i))
-			rf := replayFile{Property: id, Harness: hfn, Tier: tierNum, Params: map[string]int64{}, Draws: v.Draws, Expect: violationExpect(v),
+			rf := replayFile{Property: id, Harness: hfn, Tier: tierNum, Params: map[string]int64{}, Draws: replayDraws(v.Draws), Expect: violationExpect(v),
 				Kind: v.Kind, Label: v.Label, Site: v.Site, Msg: v.Msg, Decis: fmt.Sprint(v.Decisions), Solver: v.Solver}
 			b, _ := json.MarshalIndent(rf, "", " ")
 			os.WriteFile(path, b, 0o644)
